@@ -101,14 +101,18 @@ impl ProgramLines {
                     // Blanks are ignored when a line is read back, so a numeral listed
                     // right after an identifier would be absorbed into it. The only
                     // numerals that can follow one start with a decimal point, so list
-                    // them that way again, without the leading zero.
+                    // them that way again, without the leading zero. Such a numeral can
+                    // round up to 1, which has no spelling of that shape of its own, so
+                    // list one that rounds the same way.
                     if let (Some(Token::Symbol(symbol)), Token::NumericLiteral(_)) =
                         (i.checked_sub(1).map(|prev| &tokens[prev]), token)
                     {
-                        if !symbol.as_str().ends_with('$') && string.starts_with('0') {
+                        if !symbol.as_str().ends_with('$') {
                             if string == "0" {
                                 string = String::from(".0");
-                            } else {
+                            } else if string == "1" {
+                                string = String::from(".99999999999999999999");
+                            } else if string.starts_with('0') {
                                 string.remove(0);
                             }
                         }
